@@ -410,7 +410,9 @@ def gen_case(seed, tier, i):
         sched.append(rng.choice(chosen))
     nf = rng.randint(1, 3)
     faults = [{'pos': rng.randrange(len(sched)), 'frac': rng.random(),
-               'exc': rng.choice(['RuntimeError', 'ValueError', 'KeyError', 'AttributeError', 'OSError'])}
+               # KeyboardInterrupt = the user interrupts the host while it is about to send that request
+               'exc': rng.choice(['RuntimeError', 'ValueError', 'KeyError', 'AttributeError', 'OSError',
+                                  'KeyboardInterrupt', 'KeyboardInterrupt'])}
               for _ in range(nf)]
     # queries that flip temporary switches while they run are the interesting ones to fail
     ref_pos = [k for k, idx in enumerate(sched) if probes[idx]['m'] in ('get_references', 'rename_diff', 'search')]
@@ -581,7 +583,8 @@ class C16(base.Engine):
             lo, hi = rs.events[j]['reqs']
             if hi >= lo:
                 faults.append({'req': lo + int(f['frac'] * (hi - lo + 1)) % (hi - lo + 1),
-                               'phase': 'reply_exception', 'exc': f['exc']})
+                               'phase': 'host_interrupt' if f['exc'] == 'KeyboardInterrupt' else 'reply_exception',
+                               'exc': f['exc']})
         if faults:
             rf = run_ops(case, ops, cfg, faults=faults)
             stats['runs'] += 1
